@@ -4779,4 +4779,53 @@ theorem mapO_map_snd {g : V → Option Tree} : ∀ (vals : List V),
   | [] => rfl
   | v :: rest => by simp only [List.map_cons, mapO, mapO_map_snd rest]
 
+/-! ## accessors: helper lemmas of the conversion table (C04 extension round) -/
+
+theorem anyE_spec {α : Type} {p : α → Except Err Bool} : ∀ (l : List α), (∀ x ∈ l, ∃ b, p x = .ok b) →
+    ∃ r, anyE l p = .ok r ∧ (r = true ↔ ∃ x ∈ l, p x = .ok true)
+  | [], _ => ⟨false, rfl, by simp⟩
+  | y :: ys, hall => by
+    obtain ⟨b, hb⟩ := hall y (by simp)
+    obtain ⟨r, hr, hiff⟩ := anyE_spec ys (fun x hx => hall x (by simp [hx]))
+    cases b with
+    | true => exact ⟨true, by simp [anyE, hb], by simp [hb]⟩
+    | false =>
+      refine ⟨r, by simp [anyE, hb, hr], ?_⟩
+      rw [hiff]
+      constructor
+      · rintro ⟨x, hx, hp⟩; exact ⟨x, by simp [hx], hp⟩
+      · rintro ⟨x, hx, hp⟩
+        rcases List.mem_cons.mp hx with rfl | hx
+        · rw [hb] at hp; cases hp
+        · exact ⟨x, hx, hp⟩
+
+theorem mapO_mem {α β : Type} {g : α → Option β} : ∀ {l : List α} {ys : List β}, mapO l g = some ys →
+    (∀ x ∈ l, ∃ y ∈ ys, g x = some y) ∧ (∀ y ∈ ys, ∃ x ∈ l, g x = some y)
+  | [], ys, h => by simp [mapO] at h; subst h; simp
+  | x :: xs, ys, h => by
+    simp only [mapO] at h
+    cases hx : g x with
+    | none => simp [hx] at h
+    | some y =>
+      simp only [hx] at h
+      cases hm : mapO xs g with
+      | none => simp [hm] at h
+      | some ys' =>
+        simp only [hm, Option.some.injEq] at h
+        subst h
+        obtain ⟨h1, h2⟩ := mapO_mem hm
+        constructor
+        · intro a ha
+          rcases List.mem_cons.mp ha with rfl | ha
+          · exact ⟨y, by simp, hx⟩
+          · obtain ⟨y', hy', hg⟩ := h1 a ha; exact ⟨y', by simp [hy'], hg⟩
+        · intro b hb
+          rcases List.mem_cons.mp hb with rfl | hb
+          · exact ⟨x, by simp, hx⟩
+          · obtain ⟨a, ha, hg⟩ := h2 b hb; exact ⟨a, by simp [ha], hg⟩
+
+theorem trunc_ofInt (i : Int) : Dy.trunc ⟨i, 0⟩ = i := by
+  simp [Dy.trunc]
+
+
 end AslModel.Var
